@@ -532,7 +532,7 @@ func (c *Ctx) genC19() {
 	}
 	entities := []string{"https://spa.example.com/md", "https://spb.example.com/md", "https://spc.example.com/md"}
 	users := []string{"alice", "bob", "carol"}
-	pws := []string{"pw-a", "pw-b", "wrong"}
+	pws := []string{"pw-a", "pw-b", "wrong", ""} // the empty string is a password like any other: present in the body, stored, required at login
 	for h := 0; h < histories; h++ {
 		w := c.newIdpWorld()
 		var sids []string
@@ -551,6 +551,21 @@ func (c *Ctx) genC19() {
 		pw := pws[0]
 		w.putUser("alice", "alice@example.com", "Alice A", []string{"staff", "admin"}, &pw, nil)
 		w.putService("svc1", entities[0], true, false, nil)
+		if h == 0 {
+			// password replacement, the empty password included: after each PUT only the password of that PUT logs in
+			empty, pb := "", "pw-b"
+			w.putUser("alice", "alice@example.com", "Alice A", []string{"staff"}, &empty, nil)
+			w.login("alice", "pw-a", true, "", nil)
+			w.login("alice", "", true, "", nil)
+			w.putUser("bob", "bob@example.com", "Bob", nil, &empty, nil)
+			w.login("bob", "", true, "", nil)
+			w.putUser("alice", "alice@example.com", "Alice A", []string{"staff"}, &pb, nil)
+			w.login("alice", "", true, "", nil)
+			w.login("alice", "pw-b", true, "", nil)
+			w.putUser("alice", "alice@example.com", "Alice A", []string{"staff"}, nil, nil) // no password in the body: the stored one stays
+			w.login("alice", "pw-b", true, "", nil)
+			pwBudget -= 6
+		}
 		for i := 0; i < steps; i++ {
 			pickSid := func() string {
 				switch {
@@ -566,7 +581,7 @@ func (c *Ctx) genC19() {
 				u := users[c.rng.Intn(3)]
 				var p *string
 				if c.chance(0.5) && pwBudget > 0 {
-					x := pws[c.rng.Intn(2)]
+					x := []string{"pw-a", "pw-b", "pw-a", "pw-b", ""}[c.rng.Intn(5)]
 					p = &x
 					pwBudget--
 				}
@@ -625,7 +640,7 @@ func (c *Ctx) genC19() {
 					continue
 				}
 				pwBudget--
-				res := w.login(users[c.rng.Intn(3)], pws[c.rng.Intn(3)], true, "", faults())
+				res := w.login(users[c.rng.Intn(3)], pws[c.rng.Intn(4)], true, "", faults())
 				for sid, l := range w.sids {
 					if strings.HasSuffix(res, "/"+l) && !containsStr(sids, sid) {
 						sids = append(sids, sid)
@@ -639,7 +654,7 @@ func (c *Ctx) genC19() {
 				if hasCred {
 					pwBudget--
 				}
-				res := w.sso(ent, c.chance(0.9), users[c.rng.Intn(3)], pws[c.rng.Intn(3)], hasCred, pickSid(), c.pick("rs", "", "a&b=c"), faults())
+				res := w.sso(ent, c.chance(0.9), users[c.rng.Intn(3)], pws[c.rng.Intn(4)], hasCred, pickSid(), c.pick("rs", "", "a&b=c"), faults())
 				for sid, l := range w.sids {
 					if strings.HasSuffix(res, "/"+l) && !containsStr(sids, sid) {
 						sids = append(sids, sid)
